@@ -21,7 +21,7 @@ PROPS = {
         level_text="Exploration: thousands of generated record sequences x partitions x page sizes x codecs through code regenerated from the "
                    "working tree's templates; holds on everything explored, no proof of absence.",
         level_note="Trusted: Go toolchain, rapid, the harness's reflection bridge (vt). Bounds: <=150 records/case, lists <=700, strings <=300 bytes, fixtures flat24/nest/tiny.",
-        fixtures=["flat24", "nest", "tiny", "rep3", "big"],
+        fixtures=["flat24", "nest", "tiny", "rep3", "big", "stats2"],
         gen_anchored=True,
         stages=[dict(test="TestC01", kind="rapid", quick=2400, thorough=48000)],
         replay="TestReplayC01",
@@ -78,7 +78,7 @@ PROPS = {
                    "writer's internal sentinel, unsigned values with the high bit set, all-null pages); soundness of min/max and exactness of "
                    "null_count judged against an independent decode of each page.",
         level_note="Trusted: pqref page parser. Tightness of min/max is not demanded (only soundness), NaN values are excluded from the bound check as the property states.",
-        fixtures=["flat24", "nest", "tiny"],
+        fixtures=["flat24", "nest", "tiny", "stats2"],
         gen_anchored=True,
         stages=[dict(test="TestC12", kind="rapid", quick=3200, thorough=64000)],
         replay="TestReplayC12",
@@ -161,7 +161,7 @@ PROPS = {
         replay="TestReplayC11",
         rule="rapid workloads (<= 16 records, <= 3 row groups, all codecs, fixtures tiny/flat24/nest) written by the library; for every n in 0..len-1 the first n bytes are opened "
              "with NewParquetReader over bytes.Reader and iterated with the README loop under recover; violation iff no error from the constructor and Error()==nil after iteration, or a panic. "
-             "One evaluation = one (file, n); every cut is non-trivial; classified by where the cut falls (magic, data, footer, tail); distinct by (workload hash, n). Every prefix is opened twice: with the source at offset 0 and positioned after the leading magic. "
+             "One evaluation = one (file, n); every cut is non-trivial; classified by where the cut falls (magic, data, footer, tail); distinct by (workload hash, n). Every prefix is opened twice: with the source at offset 0 and positioned after the leading magic; prefixes shorter than 12 bytes, the last 9 cuts and every 53rd length are also written to disk and opened as *os.File. "
              "Stage 2 (directed, seed independent): files with densely varying footer lengths (1..30/45 row groups x 1..6 rows in the last one x 3 codecs x 26/40 padding lengths) and every cut in the last 16 bytes - "
              "the crash point of an interrupted Close, whose last sink writes are footer, footer length and trailing magic.",
     ),
@@ -271,11 +271,12 @@ PROPS["C13"] = dict(
     gen_anchored=True,
     race_bin=True,
     stages=[dict(test="TestC13", kind="rapid", quick=1600, thorough=32000),
-            dict(test="TestC13Race", kind="enum", quick=2, thorough=24, bin="props.race.test", shards=4, timeout_thorough=3600)],
+            dict(test="TestC13Race", kind="enum", quick=2, thorough=24, bin="props.race.test", shards=4, timeout_thorough=3600),
+            dict(test="TestC13RaceCold", kind="enum", quick=1, thorough=1, bin="props.race.test", shards=4)],
     replay="TestReplayC13",
     rule="rapid: 2..5 instances (writer or reader, fixture tiny/flat24/nest, <= 8 records, <= 2 batches, any page size/codec), pool pollution with 0..4 junk sizes x 1..6 buffers; engine 'api': a drawn "
          "cyclic schedule picks which live instance performs its next API call (NewParquetWriter/Add/Write/Close, NewParquetReader/Next+Scan); engine 'reentrant': instances 1.. run to completion inside "
-         "instance 0's sink.Write at drawn write indices before the bytes are copied. Stage 2 (race build): rounds of 48 instances x 3 repetitions on free goroutines (GOMAXPROCS=16). Oracle: output bytes / "
+         "instance 0's sink.Write at drawn write indices before the bytes are copied. Stage 2 (race build): rounds of 48 instances x 3 repetitions on free goroutines (GOMAXPROCS=16). Stage 3 (race build, fresh processes): the first use of every generated package in the process is made by 32 goroutines at once (cold start), outputs compared with a later sequential run. Oracle: output bytes / "
          "rows+error of every instance equal its solo run; solo runs repeat identically; no race report. Non-trivial: engine api with >= 2 instances alive at once, engine reentrant with >= 1 nested history "
          "executed inside a sink write, every goroutine instance; distinct by case hash.",
 )
